@@ -235,7 +235,13 @@ impl Part for TextFields {
         let (cap, raw) = text_capacity(variant, path);
         // worst-case encoded size (every non-ASCII character may need a 2-byte marker and 2 bytes) must fit the
         // field: that keeps the case inside "text up to the field width" whatever markers the encoder picks
-        let worst: usize = c.text.chars().map(|ch| if ch.is_ascii() { 1 } else { 4 }).sum();
+        // a marker (2 bytes) in front of every non-ASCII character, plus the character's longest encoding in any of the
+        // reference tables that know it (1 byte in the single-byte codepages, 2 in the double-byte ones)
+        let worst: usize = c
+            .text
+            .chars()
+            .map(|ch| if ch.is_ascii() { 1 } else { 2 + cp::tables().iter().filter_map(|t| t.encode.get(&ch).map(|b| b.len())).max().unwrap_or(2) })
+            .sum();
         if worst > cap || (raw && !c.text.is_ascii()) {
             ev.class("skipped-too-long-for-field");
             return Ok(());
@@ -539,8 +545,13 @@ pub fn field_text_strategy() -> impl Strategy<Value = String> {
             e[ix.index(e.len())].1
         }),
     ];
+    // single-byte-codepage characters only, so that 80 of them (3 bytes each with their markers) fill the widest field: texts
+    // that switch codepage on every character
+    let sbcs: Vec<char> = tables.iter().filter(|t| !t.dbcs).flat_map(|t| t.entries.iter().map(|e| e.1)).filter(|c| !c.is_ascii()).step_by(11).collect();
+    let switching = proptest::collection::vec(prop::sample::select(sbcs), 0..82);
     prop_oneof![
         3 => proptest::collection::vec(ch.clone(), 0..12),
+        1 => switching,
         1 => proptest::collection::vec(ch, 0..64),
         2 => proptest::collection::vec((0x20u8..0x7E).prop_map(|b| if b == b'^' { '~' } else { b as char }), 0..130),
     ]
